@@ -540,6 +540,17 @@ func streamResult(s *Script, dyn bool, kind string) *vgirpc.StreamResult {
 			res.OutputSchema = DynOutSchema2
 		}
 	}
+	if s.Outcome == "wrongstate" {
+		switch {
+		case dyn:
+			res.State = &struct{ N int64 }{s.Nonce}
+		case kind == "producer":
+			res.State = &ExchState{core}
+		default:
+			res.State = &ProdState{core}
+		}
+		return res
+	}
 	if kind == "producer" {
 		res.State = &ProdState{core}
 		if s.NoHook {
